@@ -52,10 +52,10 @@ type C16Case struct {
 	BufSize int `json:"bufsize,omitempty"` // 0 = 16384
 	// Visitors short-lived connections come and go after the first VisitAfter clients have
 	// connected (a server that has seen many connections in its life)
-	Visitors   int `json:"visitors,omitempty"`
-	VisitAfter int `json:"visit_after,omitempty"`
-	Clients []C16Client `json:"clients"`
-	Ends    []C16End    `json:"ends"`
+	Visitors   int         `json:"visitors,omitempty"`
+	VisitAfter int         `json:"visit_after,omitempty"`
+	Clients    []C16Client `json:"clients"`
+	Ends       []C16End    `json:"ends"`
 }
 
 type c16result struct {
